@@ -66,11 +66,20 @@ pub fn encode(name: &str, is_table: bool) -> String {
 
 /// Determines if a name will work as CFB stream name once encoded.
 pub fn is_valid(name: &str, is_table: bool) -> bool {
-    if name.is_empty() || (!is_table && name.starts_with(TABLE_PREFIX)) {
+    if name.is_empty() || name.chars().any(is_reserved_char) {
         false
     } else {
         encode(name, is_table).encode_utf16().count() <= 31
     }
+}
+
+/// Returns true for characters that cannot appear in a (decoded) stream name:
+/// the code points that the encoding itself uses (including the table
+/// prefix), which would decode to different characters, and the characters
+/// that CFB does not permit in object names.
+fn is_reserved_char(chr: char) -> bool {
+    (0x3800..=0x4840).contains(&(chr as u32))
+        || matches!(chr, '/' | '\\' | ':' | '!')
 }
 
 // ========================================================================= //
